@@ -18,10 +18,20 @@ Streams
              alone (lower bound per argument in parameter order, then the declared bound / constraints)
   e2e-call : for signatures whose parameters are plain type variables: call accepted  vs  predicted from the Lean model
              (every argument alone solvable, all bounds solvable, the solution accepts every argument)
+  gram, gram-bounds, gram-call, gram-meta : generic signatures built from a grammar (1-3 parameters, each a term over T / bounded K /
+             V / constrained AS, list[.], Sequence[.], dict[.,.], tuple[.,.], tuple[., ...], Callable[[.], .], Optional[.], . | None;
+             a type variable may occur several times inside ONE parameter; return annotation None / int / T / list[T] / a type
+             variable of no parameter), arguments built structurally so that the occurrences agree or conflict. Oracle independent
+             of the call path: every argument is assigned to its parameter annotation (Value.can_assign), the bounds maps are
+             unified in parameter order and handed to the Lean `solveCall` (unify, solve ONCE over the union). Compared: the
+             bounds of the call-level solve (and that it happened at all), its solution, "a parameter rejects / the model finds
+             no solution => diagnosed", and the metamorphic pair f(p: tuple[a, b]) called with (x, y)  ==  g(p0: a, p1: b) called
+             with x, y (theorem solveCall_grouping: the verdict depends on the sequence of leaf bounds, not on their grouping)
 Property search on the implementation (independent evaluation: the harness, not the solver, checks the solution with
 is_assignable against every bound it was given):
   lower / upper / oneof : accepted  =>  the solution accepts every lower bound / is accepted by every upper bound / is one of
                           the constraints (or Any)
+  unsat                 : no value satisfies the collected bounds (`specOk` = 0)  =>  the call is diagnosed
   order                 : the verdict (accepted / diagnosed) is the same in every permutation of the bounds; end to end: the
                           same in every order of the (parameter, argument) pairs
 A failing input is classified by the exception classes the Lean driver computes from the definitions the `_partial` theorems
@@ -59,7 +69,9 @@ RULE = (
     "ones; every multiset is solved in EVERY distinct permutation (<= 120). abstract: random relations on 4-5 mock values. "
     "e2e: 23 generic signature shapes (T, list[T], Sequence[T], dict[K, V], Callable[[T], U], bounded, constrained; returning T or "
     "None; plain, defaulted and keyword-only parameters) x argument tuples from a pool of 30 typed variables, literals and functions, "
-    "every (parameter, argument) order, a third of the calls by keyword in reversed order. non-trivial = at least two bounds "
+    "every (parameter, argument) order, a third of the calls by keyword in reversed order. gram: 14 fixed parameter lists with several occurrences of a type variable inside one parameter x 5 return annotations, then "
+    "seeded random signatures from the grammar of the module docstring, each also with reversed parameters and with its tuple "
+    "parameters spread over several parameters. non-trivial = at least two bounds "
     "that are not exact duplicates; distinct by bound text"
 )
 ASSUMPTIONS = [
@@ -239,6 +251,7 @@ def parse_report(line):
     out = {"raw": line}
     if not line.startswith("res="):
         return out
+    line, _, tail = line.partition(" leaves=")
     body, _, d = line.rpartition(" D=")
     body, _, sat = body.rpartition(" sat=")
     body, _, spec = body.rpartition(" spec=")
@@ -252,7 +265,7 @@ ADMISSIBLE = {
     "upper": ["twoUppers", "oneOfUpper", "nonTransitive"],
     "oneof": [],
     "order": ["twoUppers", "nonTransitive"],
-    "unsat": [],
+    "unsat": ["twoUppers", "oneOfUpper", "nonTransitive"],   # the classes solve_error_iff_partial excludes
 }
 
 
@@ -601,7 +614,7 @@ TV_DECL = {"": (None, []), ", bound=int": (INT, []), ", bound=A": (A_, []), ", i
            ", str, bytes": (None, [STR, BYTES]), ", int, float": (None, [INT, FLOAT])}
 E2E_PRELUDE = """\
 from typing import Any, Callable, Sequence, TypeVar
-from harness.universe import A, B, Cc, D
+from harness.universe import A, B, Cc, D, Fl
 def fis(x: int) -> str:
     raise NotImplementedError
 def fsi(x: str) -> int:
@@ -946,6 +959,355 @@ def e2e_orders(ctx, part, insts, with_model, sample):
         classify(ctx, pend, with_model, Universe(), "e2e")
 
 
+# ------------------------------------------------------------------ end to end, signatures from a grammar
+# annotation terms: ("tv", role) | ("c", name) | ("list", t) | ("seq", t) | ("dict", k, v) | ("tup2", a, b) | ("tupv", t)
+#                   | ("call", a, r) (a, r leaves) | ("opt", t) | ("ornone", t)
+GRAM_ROLES = {"T": "", "K": ", bound=int", "V": "", "AS": ", str, bytes"}
+GRAM_BASE = ["int", "str", "bool", "bytes", "object"]
+GRAM_VARS = [("vi", "int"), ("vs", "str"), ("vb", "bool"), ("vby", "bytes"), ("vo", "object"), ("vf", "float"), ("vany", "Any"),
+             ("vli", "list[int]"), ("vls", "list[str]")]
+GRAM_LEAVES = ["vi", "vs", "vb", "vby", "vo", "vf", "vany", "'a'", "b'b'", "1", "True"]
+GRAM_FOR_BASE = {"int": ["vi", "1", "vb"], "str": ["vs", "'a'"], "bool": ["vb", "True"], "bytes": ["vby", "b'b'"], "object": ["vo", "vi", "vs"]}
+GRAM_FUNCS = [(a, r) for a in ("int", "str", "bool", "object") for r in ("int", "str", "bool")]
+GRAM_PRELUDE = "from typing import Any, Callable, Optional, Sequence, TypeVar\n" + "".join(
+    "def f_%s_%s(x: %s) -> %s:\n    raise NotImplementedError\n" % (a, r, a, r) for a, r in GRAM_FUNCS)
+GRAM_RETURNS = ["None", "int", "{0}", "list[{0}]", "{U}"]   # {0} = a type variable of the parameters, {U} = one that is in no parameter
+
+
+def ann_text(t, tvn):
+    k = t[0]
+    if k == "tv":
+        return tvn[t[1]]
+    if k == "c":
+        return t[1]
+    if k == "list":
+        return "list[%s]" % ann_text(t[1], tvn)
+    if k == "seq":
+        return "Sequence[%s]" % ann_text(t[1], tvn)
+    if k == "dict":
+        return "dict[%s, %s]" % (ann_text(t[1], tvn), ann_text(t[2], tvn))
+    if k == "tup2":
+        return "tuple[%s, %s]" % (ann_text(t[1], tvn), ann_text(t[2], tvn))
+    if k == "tupv":
+        return "tuple[%s, ...]" % ann_text(t[1], tvn)
+    if k == "call":
+        return "Callable[[%s], %s]" % (ann_text(t[1], tvn), ann_text(t[2], tvn))
+    if k == "opt":
+        return "Optional[%s]" % ann_text(t[1], tvn)
+    if k == "ornone":
+        return "%s | None" % ann_text(t[1], tvn)
+    raise ValueError(t)
+
+
+def ann_roles(t):
+    if t[0] == "tv":
+        return [t[1]]
+    return [r for x in t[1:] if isinstance(x, tuple) for r in ann_roles(x)]
+
+
+def gen_ann(rng, roles, depth):
+    def leaf():
+        return ("tv", rng.choice(roles)) if rng.random() < 0.8 else ("c", rng.choice(GRAM_BASE[:3]))
+    if depth <= 0 or rng.random() < 0.3:
+        return leaf()
+    k = rng.choice(["list", "seq", "dict", "tup2", "tup2", "tupv", "call", "opt", "ornone"])
+    if k in ("list", "seq", "tupv", "opt", "ornone"):
+        return (k, gen_ann(rng, roles, depth - 1))
+    if k == "call":
+        return ("call", leaf(), leaf())
+    return (k, gen_ann(rng, roles, depth - 1), gen_ann(rng, roles, depth - 1))
+
+
+def gen_arg(rng, t, home):
+    """An argument expression shaped like the annotation; the leaves for one type variable mostly agree (`home`), sometimes
+    conflict."""
+    k = t[0]
+    if k == "tv":
+        return home[t[1]] if rng.random() < 0.55 else rng.choice(GRAM_LEAVES)
+    if k == "c":
+        return rng.choice(GRAM_FOR_BASE[t[1]]) if rng.random() < 0.85 else rng.choice(GRAM_LEAVES)
+    if k in ("list", "seq"):
+        es = [gen_arg(rng, t[1], home) for _ in range(rng.choice([1, 1, 2]))]
+        return "[%s]" % ", ".join(es) if k == "list" or rng.random() < 0.6 else "(%s,)" % ", ".join(es)
+    if k == "dict":
+        return "{%s: %s}" % (gen_arg(rng, t[1], home), gen_arg(rng, t[2], home))
+    if k == "tup2":
+        return "(%s, %s)" % (gen_arg(rng, t[1], home), gen_arg(rng, t[2], home))
+    if k == "tupv":
+        return "(%s,)" % ", ".join(gen_arg(rng, t[1], home) for _ in range(rng.choice([1, 2])))
+    if k == "call":
+        def base_of(x, pos):
+            if x[0] == "c":
+                return x[1] if x[1] in ("int", "str", "bool", "object") else "object"
+            e = home[x[1]]
+            return {"vi": "int", "1": "int", "vs": "str", "'a'": "str", "vb": "bool", "True": "bool"}.get(e, "object" if pos == 0 else "int")
+        a, r = base_of(t[1], 0), base_of(t[2], 1)
+        if r == "object":
+            r = "int"
+        if rng.random() < 0.45:
+            a, r = rng.choice(GRAM_FUNCS)
+        return "f_%s_%s" % (a, r)
+    if k in ("opt", "ornone"):
+        return "None" if rng.random() < 0.2 else gen_arg(rng, t[1], home)
+    raise ValueError(t)
+
+
+def split_tuple_display(e):
+    """`(a, b)` -> [a, b] for a top-level two-element tuple display, else None"""
+    import ast as _ast
+    try:
+        node = _ast.parse(e, mode="eval").body
+    except SyntaxError:
+        return None
+    if isinstance(node, _ast.Tuple) and len(node.elts) == 2:
+        return [_ast.unparse(x) for x in node.elts]
+    return None
+
+
+def flatten_pairs(params, args):
+    """The metamorphic twin: every top-level `tuple[a, b]` parameter called with a tuple display becomes two parameters."""
+    ps, as_, changed = [], [], False
+    for t, e in zip(params, args):
+        parts = split_tuple_display(e) if t[0] == "tup2" else None
+        if parts is not None:
+            changed = True
+            p2, a2, _ = flatten_pairs([t[1], t[2]], parts)
+            ps += p2
+            as_ += a2
+        else:
+            ps.append(t)
+            as_.append(e)
+    return ps, as_, changed
+
+
+GRAM_SEEDS = [  # the parameter lists every run covers with every return annotation (several occurrences inside ONE parameter)
+    [("dict", ("tv", "AS"), ("tv", "AS"))], [("tup2", ("tv", "AS"), ("tv", "AS"))], [("call", ("tv", "T"), ("tv", "T"))],
+    [("tup2", ("tv", "T"), ("list", ("tv", "T")))], [("dict", ("tv", "K"), ("tv", "K"))], [("tup2", ("tv", "K"), ("opt", ("tv", "K")))],
+    [("tup2", ("tup2", ("tv", "AS"), ("tv", "T")), ("tv", "AS"))], [("seq", ("tup2", ("tv", "AS"), ("tv", "AS")))],
+    [("tup2", ("call", ("tv", "T"), ("c", "int")), ("tv", "T"))], [("tupv", ("tv", "AS"))], [("list", ("tv", "AS"))],
+    [("tup2", ("tv", "T"), ("tv", "T")), ("tv", "T")], [("tv", "AS"), ("tv", "AS")], [("dict", ("tv", "T"), ("ornone", ("tv", "T")))],
+]
+
+
+def gen_gram(ctx):
+    rng = ctx.rng
+    cases = []
+
+    def add(params, ret_tpl):
+        roles = sorted({r for t in params for r in ann_roles(t)}) or ["T"]
+        for _ in range(8):
+            home = {r: rng.choice(["vby", "b'b'", "vs", "'a'"] if r == "AS" else ["vi", "vb", "1", "vs"] if r == "K" else GRAM_LEAVES[:7])
+                    for r in roles + ["T"]}
+            args = [gen_arg(rng, t, home) for t in params]
+            if all(len(a) < 120 for a in args):
+                cases.append({"params": params, "ret": ret_tpl, "ret_role": rng.choice(roles), "args": args})
+                return
+
+    for params in GRAM_SEEDS:
+        for ret in GRAM_RETURNS:
+            for _ in range(ctx.n(2, 6)):
+                add(params, ret)
+    for _ in range(ctx.n(220, 4000)):
+        roles = rng.sample(sorted(GRAM_ROLES), rng.choice([1, 1, 2]))
+        n = rng.choice([1, 1, 2, 3])
+        add([gen_ann(rng, roles, 2) for _ in range(n)], rng.choice(GRAM_RETURNS))
+    return cases
+
+
+def run_gram(ctx, cases, with_model=True):
+    """Oracle independent of the call path: every argument is assigned to its parameter annotation (Value.can_assign), the bounds
+    maps are unified in parameter order, and each type variable's bounds go to the Lean `solveCall`. Compared with the call:
+      gram-bounds : the bounds of the call-level solve = that union (and the solve happened at all)
+      gram        : the recorded solution  vs  the model
+      gram-call   : a parameter rejected / the model finds no solution  =>  the call is diagnosed
+      gram-meta   : a `tuple[a, b]` parameter called with `(x, y)`  vs  two parameters `a`, `b` called with `x`, `y`
+    Property: no value exists (`specOk` = 0)  =>  diagnosed; accepted => the solution satisfies the union; same verdict for the
+    reversed parameter order."""
+    import ast as _ast
+    import pyanalyze.signature as SIG
+    from pyanalyze import value as PV
+    checker = pya.make_checker()
+    uni = Universe()
+    B = 90
+    for b0 in range(0, len(cases), B):
+        part = cases[b0:b0 + B]
+        lines = GRAM_PRELUDE.rstrip("\n").split("\n")
+        insts = []
+        for ci, c in enumerate(part):
+            variants = [("id", c["params"], c["args"])]
+            if len(c["params"]) > 1:
+                variants.append(("rev", c["params"][::-1], c["args"][::-1]))
+            fp, fa, changed = flatten_pairs(c["params"], c["args"])
+            if changed and len(fp) <= 5:
+                variants.append(("flat", fp, fa))
+            for vi_, (vname, params, args) in enumerate(variants):
+                roles = sorted({r for t in params for r in ann_roles(t)})
+                tvn = {r: "%s_%d_%d" % (r, ci, vi_) for r in set(roles) | {"U", c["ret_role"]}}
+                for r in sorted(tvn):
+                    lines.append('%s = TypeVar("%s"%s)' % (tvn[r], tvn[r], GRAM_ROLES.get(r, "")))
+                fn = "g_%d_%d" % (ci, vi_)
+                ret = c["ret"].format(tvn[c["ret_role"]], U=tvn["U"])
+                lines.append("def %s(%s) -> %s:" % (fn, ", ".join("p%d: %s" % (k, ann_text(t, tvn)) for k, t in enumerate(params)), ret))
+                lines.append("    raise NotImplementedError")
+                insts.append(dict(ci=ci, variant=vname, fn=fn, tvn=tvn, params=params, args=args, roles=roles))
+        lines.append("def caller(%s) -> None:" % ", ".join("%s: %s" % va for va in GRAM_VARS))
+        for inst in insts:
+            lines.append("    reveal_type(%s(%s))" % (inst["fn"], ", ".join(inst["args"])))
+            inst["line"] = len(lines)
+        src = "\n".join(lines) + "\n"
+        records = {}
+        orig = SIG.resolve_bounds_map
+
+        def recorder(bounds_map, ctx_, **kw):
+            tv_map, errors = orig(bounds_map, ctx_, **kw)
+            k = 0
+            for tv, bounds in bounds_map.items():
+                sol = tv_map.get(tv)
+                failed = isinstance(sol, PV.AnyValue) and sol.source is PV.AnySource.error
+                own = [errors[k]] if failed and k < len(errors) else []
+                k += int(failed)
+                n = getattr(tv, "__name__", None)
+                if n is not None:
+                    records[n] = (list(bounds), sol, own)
+            return tv_map, errors
+
+        SIG.resolve_bounds_map = recorder
+        try:
+            fails, tree, mod = pya.check_source(src, annotate=True)
+        finally:
+            SIG.resolve_bounds_map = orig
+        by_line = {inst["line"]: inst for inst in insts}
+        for inst in insts:
+            inst["codes"] = []
+        for f in fails:
+            inst = by_line.get(f["lineno"])
+            if inst is not None and f["code"] != "reveal_type":
+                inst["codes"].append(f["code"])
+        for node in _ast.walk(tree):
+            if isinstance(node, _ast.Call) and isinstance(node.func, _ast.Name) and node.func.id == "reveal_type" and node.lineno in by_line:
+                by_line[node.lineno]["call"] = node.args[0]
+        # ---- the independent route: can_assign per parameter, unify, model
+        jobs = []
+        for inst in insts:
+            inst["codes"] = sorted(set(inst["codes"]))
+            inst["verdict"] = "diagnosed" if inst["codes"] else "accepted"
+            ctx.count(1, **{"gram_" + inst["verdict"]: 1, "gram_params_%d" % len(inst["params"]): 1, "gram_" + inst["variant"]: 1})
+            inst["param_error"] = False
+            inst["union"] = None
+            try:
+                sig = checker.arg_spec_cache.get_argspec(getattr(mod, inst["fn"]))
+                groups = {}   # typevar name -> list of (bound objects contributed by one parameter)
+                for param, a in zip(sig.parameters.values(), inst["call"].args):
+                    r = param.annotation.can_assign(a.inferred_value, checker)
+                    if isinstance(r, PV.CanAssignError):
+                        inst["param_error"] = True
+                        break
+                    for tv, bounds in r.items():
+                        groups.setdefault(getattr(tv, "__name__", str(tv)), []).append(list(bounds))
+                if not inst["param_error"]:
+                    inst["union"] = {n: ([[decode_bound(b) for b in g] for g in gs], [b for g in gs for b in g]) for n, gs in groups.items()}
+            except V.Unencodable:
+                ctx.tag("gram_unencodable_bounds")
+            except Exception as e:  # noqa: BLE001
+                ctx.tag("gram_oracle_exc_" + type(e).__name__)
+            if inst["union"]:
+                for n, (gs, objs) in inst["union"].items():
+                    if not risky([v for g in gs for b in g for v in bound_values(b)]):
+                        jobs.append((inst, n, gs, objs))
+        reports = {}
+        if with_model and jobs:
+            out = lean.run_driver("C15", ["solvecall " + " ".join("(%s)" % bounds_text(g) for g in gs) for _, _, gs, _ in jobs])
+            for (inst, n, gs, objs), l in zip(jobs, out):
+                reports[id(inst), n] = parse_report(l)
+        pending = []
+        for inst in insts:
+            c = part[inst["ci"]]
+            case = {"stream": "gram", "params": c["params"], "ret": c["ret"], "ret_role": c["ret_role"], "args": c["args"],
+                    "variant": inst["variant"], "def": next(l for l in src.split("\n") if l.startswith("def %s(" % inst["fn"])),
+                    "call": "%s(%s)" % (inst["fn"], ", ".join(inst["args"])), "verdict": inst["verdict"], "codes": inst["codes"]}
+            inst["case"] = case
+            ctx.nontriv("gram|%s|%s" % (case["def"].split("(", 1)[1], ",".join(inst["args"])))
+            if b0 == 0 and inst["ci"] < 2 and inst["variant"] == "id":
+                ctx.sample({k: case[k] for k in ("stream", "def", "call", "verdict", "codes")})
+            if inst["param_error"]:
+                ctx.corr("gram-call")
+                if inst["verdict"] != "diagnosed":
+                    ctx.disagree("gram-call", case, "accepted", "a parameter annotation rejects its argument")
+                continue
+            if inst["union"] is None:
+                continue
+            model_err = False
+            inst["D"] = []
+            for n, (gs, objs) in inst["union"].items():
+                flat = [b for g in gs for b in g]
+                rep = reports.get((id(inst), n))
+                rec = records.get(n)
+                tcase = dict(case, typevar=n, bounds=flat, text=bounds_text(flat))
+                ctx.corr("gram-bounds")
+                if rec is None:
+                    ctx.disagree("gram-bounds", tcase, "no call-level solve for this type variable", "expected " + bounds_text(flat))
+                else:
+                    try:
+                        got = bounds_text([decode_bound(x) for x in rec[0]])
+                    except V.Unencodable:
+                        got = "UNENC"
+                    if got != bounds_text(flat):
+                        ctx.disagree("gram-bounds", tcase, got, "expected " + bounds_text(flat))
+                if rep is None:
+                    continue
+                inst["D"] = sorted(set(inst["D"]) | set(rep.get("D", [])))
+                conforms = True
+                if rec is not None:
+                    impl = show_result(uni, rec[1], rec[2], rec[0])
+                    ctx.corr("gram")
+                    if not impl.startswith("UNENC") and impl != rep.get("res"):
+                        conforms = False
+                        ctx.disagree("gram", tcase, impl, rep["raw"])
+                if not rep.get("res", "").startswith("ok "):
+                    model_err = True
+                if rep.get("spec") == "0" and inst["verdict"] == "accepted":
+                    ctx.tag("fail_gram_unsat")
+                    pending.append(dict(case=dict(tcase, kind="unsat"), what="no value satisfies the bounds of %s (%s) but the call is not diagnosed" % (
+                        n, bounds_text(flat)), kind="unsat", conforms=conforms, cheap=rep.get("D", []), perms=[flat]))
+                if inst["verdict"] == "accepted" and rec is not None and rec[1] is not None and not rec[2]:
+                    sol, seen = rec[1], set()
+                    for b, o in zip(flat, objs):
+                        kind = what = None
+                        if b[0] == "L" and not sol.is_assignable(o.value, checker):
+                            kind, what = "lower", "the solution %s does not accept the lower bound %s" % (sol, o.value)
+                        elif b[0] == "U" and not o.value.is_assignable(sol, checker):
+                            kind, what = "upper", "the solution %s is not accepted by the upper bound %s" % (sol, o.value)
+                        elif b[0] == "O" and not (isinstance(sol, PV.AnyValue) or any(sol == x for x in o.constraints)):
+                            kind, what = "oneof", "the solution %s is not one of the constraints" % (sol,)
+                        if kind and kind not in seen:
+                            seen.add(kind)
+                            ctx.tag("fail_gram_" + kind)
+                            pending.append(dict(case=dict(tcase, kind=kind), what=what, kind=kind, conforms=conforms, cheap=rep.get("D", []), perms=[flat]))
+            if reports:
+                ctx.corr("gram-call")
+                if model_err and inst["verdict"] != "diagnosed":
+                    ctx.disagree("gram-call", case, "accepted", "the model finds no solution for the unified bounds")
+        # ---- metamorphic and order comparisons
+        per_case = {}
+        for inst in insts:
+            per_case.setdefault(inst["ci"], {})[inst["variant"]] = inst
+        for ci, vs in per_case.items():
+            base = vs["id"]
+            if "flat" in vs:
+                ctx.corr("gram-meta")
+                if vs["flat"]["verdict"] != base["verdict"]:
+                    ctx.disagree("gram-meta", dict(base["case"], twin=vs["flat"]["case"]["def"], twin_call=vs["flat"]["case"]["call"]),
+                                 base["verdict"], "the same bounds spread over several parameters: " + vs["flat"]["verdict"])
+            if "rev" in vs and vs["rev"]["verdict"] != base["verdict"]:
+                ok, bad = (base, vs["rev"]) if base["verdict"] == "accepted" else (vs["rev"], base)
+                ctx.tag("fail_gram_order")
+                perms = [[b for g in gs for b in g] for r in (ok, bad) if r.get("union") for gs, _ in r["union"].values()]
+                pending.append(dict(case=dict(ok["case"], kind="order", other=bad["case"]["def"], other_call=bad["case"]["call"], codes=bad["codes"]),
+                                    what="accepted as %s but diagnosed (%s) with the parameters in the other order" % (ok["case"]["call"], ",".join(bad["codes"])),
+                                    kind="order", conforms=True, cheap=sorted(set(ok.get("D", [])) | set(bad.get("D", []))), perms=perms))
+        classify(ctx, pending, with_model, uni, "gram")
+
+
 # ------------------------------------------------------------------ entry points
 def corpus():
     path = os.path.join(lean.HERE, "corpus", "C15.jsonl")
@@ -954,6 +1316,8 @@ def corpus():
         for l in open(path):
             if l.strip():
                 d = json.loads(l)
+                if d.get("stream") == "gram":
+                    continue
                 if d.get("stream") == "e2e":
                     e2e.append((d["shape"], d["args"]))
                 elif d.get("tab"):
@@ -963,8 +1327,25 @@ def corpus():
     return solve, e2e, abstract
 
 
+def gram_case(d):
+    return {"params": [totuple(t) for t in d["params"]], "ret": d["ret"], "ret_role": d.get("ret_role", "T"), "args": list(d["args"])}
+
+
+def corpus_gram():
+    path = os.path.join(lean.HERE, "corpus", "C15.jsonl")
+    out = []
+    if os.path.exists(path):
+        for l in open(path):
+            if l.strip():
+                d = json.loads(l)
+                if d.get("stream") == "gram":
+                    out.append(gram_case(d))
+    return out
+
+
 def run_all(ctx, with_model):
     c_solve, c_e2e, c_abs = corpus()
+    run_gram(ctx, corpus_gram() + gen_gram(ctx), with_model)
     evaluate(ctx, c_solve, with_model, stream="solve", sample_every=5)
     for tab, bs in c_abs:
         evaluate(ctx, [bs], with_model, uni=Universe(tab), stream="abstract", sample_every=10 ** 9)
@@ -1010,7 +1391,9 @@ def run_impl_only(ctx):
 
 def replay(ctx, data):
     c = data["case"]
-    if c.get("stream") == "e2e" and "shape" in c:
+    if c.get("stream") == "gram":
+        run_gram(ctx, [gram_case(c)])
+    elif c.get("stream") == "e2e" and "shape" in c:
         run_e2e(ctx, [(c["shape"], c["args"])])
     elif c.get("stream") == "gen":
         run_gen(ctx)
